@@ -137,7 +137,7 @@ CHECKS = {
         design="DESIGN.md §4 C15",
     ),
     "C16": dict(
-        rules="R16.1-R16.6",
+        rules="R16.1-R16.7",
         what="exception containment of the serve loop by may-raise summaries; status-file removal on every CFG exit of serve; per-connection reset of IPCServer framing state; frame consumption order in frame_from_buffer and writer/reader header agreement; request keys are membership-tested, **data reaches a command only after signature binding, a rejected stop does not exit",
         quant="client behaviours and stream segmentations",
         technique="interprocedural may-raise summaries + CFG must-pass-through / pairing queries",
